@@ -31,7 +31,7 @@ def gen(rng, sc, n):
     for i in range(max(12, n // 6)):
         rr = r0 if i < 6 else rng
         for _ in range(50):
-            mt, items = cc.gen_message(rr, sc, p_opt=0.5, with_data=False)
+            mt, items = cc.gen_message(rr, sc, p_opt=0.5, with_data=(i % 2 == 1))      # in-order cases may carry Length/data pairs
             if not any(it.elems is not None for it in items):
                 break
         else:
